@@ -46,6 +46,10 @@ func isDigit(ch int) bool {
 type Scanner struct {
 	Pos    ast.Position
 	reader *bufio.Reader
+	// ended is set by the first failed read: the input is over and the reader is not asked again.
+	ended bool
+	// readErr is the error that ended the input, unless it was io.EOF.
+	readErr error
 }
 
 func NewScanner(reader io.Reader, source string) *Scanner {
@@ -64,8 +68,16 @@ func (sc *Scanner) Error(tok string, msg string) *Error { return &Error{sc.Pos, 
 func (sc *Scanner) TokenError(tok ast.Token, msg string) *Error { return &Error{tok.Pos, msg, tok.Str} }
 
 func (sc *Scanner) readNext() int {
+	if sc.ended {
+		return EOF
+	}
 	ch, err := sc.reader.ReadByte()
-	if err == io.EOF {
+	if err != nil {
+		// any error ends the input, not only io.EOF: ReadByte delivered no byte
+		sc.ended = true
+		if err != io.EOF {
+			sc.readErr = err
+		}
 		return EOF
 	}
 	return int(ch)
@@ -509,6 +521,11 @@ func Parse(reader io.Reader, name string) (chunk []ast.Stmt, err error) {
 	defer func() {
 		if e := recover(); e != nil {
 			err, _ = e.(error)
+		}
+		if rerr := lexer.scanner.readErr; rerr != nil {
+			// the text was cut short by a failing reader (luaL_loadfile: "cannot read"): whatever the
+			// parser made of the truncated text, the caller gets the reader's error
+			chunk, err = nil, fmt.Errorf("%v: read error: %w", name, rerr)
 		}
 	}()
 	yyParse(lexer)
